@@ -44,7 +44,8 @@ TAUS = (1.0, 2.5, 10.0, 60.0, 7.0)  # seconds per tick (exact law)
 TICKS_B = (10, 15, 20, 30, 60)      # seconds per tick (scenario)
 TOL_R, TOL_V = 2.0e-6, 2.0e-8       # km (+ TOL_V * elapsed seconds), km/s (see assumptions)
 ACC_B = 2.0e-6                      # km/s^2, size of the configured thrust in (b)
-INV15 = ("ThrustExactlyInterval", "DeliveredDv", "ExactAtBoundaries", "Semigroup", "StepwiseEqualsRun", "QueueClean")
+INV15 = ("ThrustExactlyInterval", "DeliveredDv", "ExactAtBoundaries", "Semigroup", "StepwiseEqualsRun", "QueueClean",
+         "ImpulseNeverLost")
 
 
 class Hang(Exception):
@@ -92,7 +93,10 @@ def exact_one(agent, b, method: str, tau: float, rng: random.Random, patience: f
     variant (same spec numbers must come out, the thrust history is the same):
       "impulse"  a real scheduled ECI impulse with ZERO delta-v fires half a tick after the burn starts
                  (another terminal event in the middle of the burn must not touch the thrust);
-      "split"    the burn is configured as two back-to-back burns [ts, m) + [m, te) of the same acceleration.
+      "split"    the burn is configured as two back-to-back burns [ts, m) + [m, te) of the same acceleration,
+                 A queued before B; "split-rev": B queued before A.
+    A behaviour with a companion impulse (b["imp"], posed by the spec: possibly AT the burn's start or end, listed before
+    or after the burn) is replayed with a real ScheduledECIImpulse of that delta-v in that queue order.
     """
     from resonaate.dynamics.integration_events.scheduled_impulse import ScheduledECIImpulse
     from resonaate.parallel.agent_propagation import PropagateRegistration, PropagateResult
@@ -100,10 +104,11 @@ def exact_one(agent, b, method: str, tau: float, rng: random.Random, patience: f
     v0, g, a = b["law"]
     burn, dt = b["burn"], b["dt"]
     parts = [(burn["ts"], burn["te"])]
-    if variant == "split":
+    if variant in ("split", "split-rev"):
         mid = (burn["ts"] + burn["te"]) // 2
-        parts = [(burn["ts"], mid), (mid, burn["te"])]
+        parts = [(burn["ts"], mid), (mid, burn["te"])][::-1 if variant == "split-rev" else 1]
     imp_tick = burn["ts"] + 0.5
+    cimp = b.get("imp") if b.get("imp", {}).get("at", 0) > 0 else None
     emb = K.Embed(rng, tau, ALPHA)
     agent._dynamics = K.ExactLaw(g * ALPHA * emb.u, method=method)
     agent._time = ScenarioTime(0.0)
@@ -115,9 +120,13 @@ def exact_one(agent, b, method: str, tau: float, rng: random.Random, patience: f
     for k, call in enumerate(b["hist"]):
         lb, ub = call["times"]
         # Scenario.stepForward: the active burn is handled (appended) again at every step (spec action Deliver)
+        if cimp and cimp["first"] and lb < cimp["at"] <= ub:     # listed before the burn in the configuration
+            agent.appendPropagateEvent(ScheduledECIImpulse(ScenarioTime(cimp["at"] * tau), cimp["dv"] * emb.vu * emb.u, agent.simulation_id))
         for p_ts, p_te in parts:
             if burn["kind"] != "none" and p_ts <= ub and p_te > lb:
                 agent.appendPropagateEvent(emb.thrust_event(burn["kind"], a, p_ts * tau, p_te * tau, agent.simulation_id))
+        if cimp and not cimp["first"] and lb < cimp["at"] <= ub:
+            agent.appendPropagateEvent(ScheduledECIImpulse(ScenarioTime(cimp["at"] * tau), cimp["dv"] * emb.vu * emb.u, agent.simulation_id))
         if variant == "impulse" and lb < imp_tick <= ub:       # an impulse is handled once, in the step that contains it
             agent.appendPropagateEvent(ScheduledECIImpulse(ScenarioTime(imp_tick * tau), np.zeros(3), agent.simulation_id))
         reg = PropagateRegistration(agent)
@@ -142,6 +151,16 @@ def exact_one(agent, b, method: str, tau: float, rng: random.Random, patience: f
         if off > 1e-6:
             return ("exact-law:thrust-direction", f"state left the line of motion by {off:.3g} spec units at step {k} "
                     f"(kind {burn['kind']})", {"step": k, "off": off}), worst, k
+        if cimp and not K.close(vv, want_v):
+            where = "start" if cimp["at"] == burn["ts"] else "end" if cimp["at"] == burn["te"] else "apart"
+            miss = vv - want_v
+            what = "impulse-not-applied" if cimp["dv"] and abs(miss + cimp["dv"]) < 1e-6 else \
+                ("thrust-lost" if miss * a < 0 else "thrust-overrun")
+            order = "impulse queued before the burn" if cimp["first"] else "burn queued before the impulse"
+            return (f"exact-law:impulse-at-burn-{where}:{what}",
+                    f"{burn['kind']} burn [{burn['ts']},{burn['te']}) ticks, Dt={dt}, impulse of {cimp['dv']} at tick {cimp['at']} "
+                    f"({order}): velocity {vv:.9f} after step {k + 1}, spec says {want_v} (difference {miss / a:+.6f} ticks of thrust)",
+                    {"step": k, "velocity": vv, "spec": want_v}), worst, k
         if not K.close(vv, want_v):
             on_obs = (vv - (v0 + g * ub)) / a          # observed thrust time (ticks) so far
             on_want = (want_v - (v0 + g * ub)) / a
@@ -177,7 +196,7 @@ def exact_replay(ctx: Ctx, behs, rng: random.Random, patience: float = 20.0, sto
             sub_seed = rng.getrandbits(32)
             try:
                 bad, worst, steps = exact_one(agent, b, method, tau, random.Random(sub_seed), patience, variant)
-                if bad and pre:
+                if bad and pre and ":impulse-at-burn-" not in bad[0]:
                     bad = (bad[0].replace("exact-law:", pre), f"[{variant} variant] " + bad[1], bad[2])
             except tlc.MachineryError:
                 raise
@@ -187,7 +206,8 @@ def exact_replay(ctx: Ctx, behs, rng: random.Random, patience: float = 20.0, sto
             stats["behaviours"] += 1
             stats["steps"] += steps
             stats["max_rel_err"] = max(stats["max_rel_err"], worst if bad is None else 0.0)
-            key = ("exact" + variant, tuple(b["law"]), b["dt"], b["nsteps"], b["burn"]["ts"], b["burn"]["te"], b["burn"]["kind"], method)
+            key = ("exact" + variant, tuple(b["law"]), b["dt"], b["nsteps"], b["burn"]["ts"], b["burn"]["te"], b["burn"]["kind"], method,
+                   tuple(sorted(b.get("imp", {}).items())))
             ctx.case(key, nontrivial=b["burn"]["kind"] != "none",
                      sample={"part": "exact", "law": b["law"], "dt": b["dt"], "nsteps": b["nsteps"], "burn": b["burn"],
                              "method": method, "tau_s": tau} if i % 701 == 3 else None)
@@ -447,8 +467,9 @@ def run(ctx: Ctx):
         "convertToScenarioTime (checked to be within 1 ms of the nominal whole seconds); delivery windows are C01's concern",
         "(b) a plane-change maneuver whose orbit crosses the equator (|z| < 5 km or sign change) during a step that overlaps the "
         "burn is undecided from that step on: the thrust is discontinuous there and two integrations resolve it differently",
-        "overlapping burns are not defined by the simulator (single finite_thrust slot); back-to-back burns and a zero impulse in "
-        "the middle of a burn are explored on the exact law (same spec numbers)",
+        "overlapping burns are not defined by the simulator (single finite_thrust slot); back-to-back burns (both queue orders), a zero "
+        "impulse in the middle of a burn and a companion impulse at any tick strictly inside a step - including exactly the burn's "
+        "start or end, listed before or after the burn - are explored on the exact law; an impulse ON a step boundary is C01's subject",
     ]
     res, behs = K.run_spec(ctx, "steps", "Kinematics.tla Mode=steps: all (law, Dt, NSteps, ts, te, kind); C15 invariants + behaviours",
                            invs=INV15, **spec_cfg(ctx))
@@ -456,16 +477,29 @@ def run(ctx: Ctx):
     refuted = K.run_as_coded(ctx, "ascoded", ("ThrustExactlyInterval",), **small)
     refuted_b = K.run_as_coded(ctx, "ascoded_b", ("ThrustExactlyInterval",), deviation="EndMasksStart", **small)
     cov = K.run_coverage(ctx, "cov", [a for a in K.ACTIONS if a not in ("AppendEvent", "PrepEventsBulk", "DropEvents")], invs=INV15,
-                         Horizon=6, StepLens="{2, 3}", MaxSteps=3, Laws="LawsOne", Kinds="KindsOne")
-    ctx.extra["spec_mutants_killed"] = {"EndNeedsLanding(D10)": refuted, "EndMasksStart(D10b)": refuted_b}
+                         Horizon=6, StepLens="{2, 3}", MaxSteps=3, Laws="LawsOne", Kinds="KindsOne", ImpChoice='"any"', ImpDvs="{1}")
+    refuted_c = K.run_as_coded(ctx, "ascoded_c", ("ThrustExactlyInterval", "ImpulseNeverLost"), deviation="FirstRootOnly",
+                               ImpChoice='"coincident"', ImpDvs="{1}", **small)
+    ctx.extra["spec_mutants_killed"] = {"EndNeedsLanding(D10)": refuted, "EndMasksStart(D10b)": refuted_b,
+                                        "FirstRootOnly(coincident roots)": refuted_c}
     ctx.extra["action_coverage"] = cov
     ctx.extra["behaviours"] = len(behs)
     ctx.extra["exact"] = exact_replay(ctx, behs, rng)
     # the same behaviours with a companion event in the agent's queue (the spec's numbers stay the oracle): every 3rd
     # (4th in quick) behaviour whose burn lasts at least two ticks
     long_burns = [b for b in behs if b["burn"]["kind"] != "none" and b["burn"]["te"] - b["burn"]["ts"] >= 2]
-    ctx.extra["exact_zero_impulse_mid_burn"] = exact_replay(ctx, long_burns[::4 if ctx.quick else 2], rng, variant="impulse")
-    ctx.extra["exact_back_to_back_burns"] = exact_replay(ctx, long_burns[1::4 if ctx.quick else 2], rng, variant="split")
+    ctx.extra["exact_zero_impulse_mid_burn"] = exact_replay(ctx, long_burns[::8 if ctx.quick else 4], rng, variant="impulse")
+    ctx.extra["exact_back_to_back_burns"] = exact_replay(ctx, long_burns[1::8 if ctx.quick else 4], rng, variant="split")
+    ctx.extra["exact_back_to_back_burns_reversed_queue"] = exact_replay(ctx, long_burns[5::8 if ctx.quick else 4], rng, variant="split-rev")
+    # a companion impulse posed by the SPEC: at any tick strictly inside a step - in particular exactly at the burn's start
+    # or end (two event roots at one stop) - listed before or after the burn; the spec's integers are the oracle
+    _, with_imp = K.run_spec(ctx, "imp", "Kinematics.tla Mode=steps with a companion impulse (any tick inside a step, both queue orders)",
+                             emit="BEHI", ImpChoice='"any"', ImpDvs="{1}" if ctx.quick else "{0, 1}",
+                             **(small if ctx.quick else dict(small, Kinds="KindsBurn", Laws="LawsQuick")))
+    with_imp = [b for b in with_imp if b["imp"]["at"] > 0]
+    ctx.extra["exact_companion_impulse"] = exact_replay(ctx, with_imp, rng, variant="impulse-companion")
+    ctx.extra["exact_companion_impulse"]["coincident_with_burn_start_or_end"] = sum(
+        1 for b in with_imp if b["imp"]["at"] in (b["burn"]["ts"], b["burn"]["te"]))
     # burns that start at the scenario start itself (tick 0): a handful, short patience - on a tree where the restart
     # loop cannot leave scenario time 0 every one of them would hang
     _, zero = K.run_spec(ctx, "zero", "Kinematics.tla Mode=steps, burns starting at scenario time 0", invs=INV15, Horizon=6,
